@@ -32,6 +32,9 @@ CHECKS.update({
  "C13": ("exploration","runtime monitor with recover/pack/unpack oracle over seeded hostile wire-valid messages on every database layout and backend",
          "Feeds seeded hostile messages (all survive a pack/unpack round trip first) to real handlers loaded with generated databases of every layout (root zone, root delegation, TLD zone, empty file, ...) on CDB and RocksDB v1/v2 through UDP and TCP writers; each call must return without panic, write at most one message that packs, unpacks, has QR, the query's id and first question, fits the advertised size or has TC, and is BADVERS for EDNS version != 0; a twin query without private-use options must get the same reply.",
          "Go panics are recovered in-process; a fatal runtime error would abort the check (exit != 0). Only messages miekg/dns can pack are generated.","4/C13"),
+ "C10": ("exploration","runtime oracle on the wire form of replies: prescribed OPT/ECS echo and scope from the LPM/name-map model, served records checked against the reference resolver for the location the subnet selects",
+         "Sends generated queries without EDNS, with EDNS only and with ECS (family 1/2, source lengths around and across the declared subnet lengths, plus cookie/DO/size variation) to real handlers on CDB (combined and per-family prefix sets), RocksDB v1 and v2; the reply is re-read from its wire bytes and must carry OPT/ECS exactly as the query did, the prescribed scope, and the records of the location selected by the subnet, else the resolver.",
+         "Trusts the LPM/name-map model and the reference resolver. EDNS version 0, family-sized addresses with zero host bits.","4/C10"),
 })
 BUILT = set(CHECKS)
 ALL = [json.loads(l)["id"] for l in open("properties.jsonl")]
